@@ -237,7 +237,7 @@ def run(ctx):
     for ty in TYPES1:
         for name, sel, depth, cfg in passes:
             futs[("bfs", ty + "-" + name)] = pool.submit(bfs_replay, ctx, exe, ty, name, alphas[name], depth, blocks[name], env)
-        futs[("rand", ty)] = pool.submit(rand_traces, ctx, exe, "rand", ty, 30 if q else 250, 300 if q else 1000, env)
+        futs[("rand", ty)] = pool.submit(rand_traces, ctx, exe, "rand", ty, 30 if q else 150, 300 if q else 1000, env)
     # multi-dimensional arrays: (dimension, sequences, length)
     for d, n, ln in ([(2, 6, 100), (3, 6, 100)] if q else [(2, 40, 250), (3, 40, 200), (4, 20, 150)]):
         futs[("nd", str(d))] = pool.submit(rand_traces, ctx, exe, "nd", str(d), n, ln, env)
